@@ -71,3 +71,14 @@ func VerifComputeAcceptKey(challengeKey string) string { return computeAcceptKey
 func VerifCompression(c *Conn) (write, read bool) {
 	return c.newCompressionWriter != nil, c.newDecompressionReader != nil
 }
+
+// VerifParseURL is parseURL followed by what Dial derives from the result: the request target
+// (URL.RequestURI of the URL with Opaque set) and hostPortNoPort.
+func VerifParseURL(s string) (scheme, host, requestURI, hostPort, hostNoPort string, err error) {
+	u, err := parseURL(s)
+	if err != nil {
+		return "", "", "", "", "", err
+	}
+	hostPort, hostNoPort = hostPortNoPort(u)
+	return u.Scheme, u.Host, u.RequestURI(), hostPort, hostNoPort, nil
+}
